@@ -26,3 +26,15 @@ package zoekt
 //@   ensures old(o.TotalMaxMatchCount) != 0 ==> o.TotalMaxMatchCount == old(o.TotalMaxMatchCount)
 //@   ensures old(o.TotalMaxMatchCount) == 0 ==> o.TotalMaxMatchCount == 10 * o.ShardMaxMatchCount
 //@   assigns o.ShardMaxMatchCount, o.TotalMaxMatchCount
+
+// ---------------------------------------------------------------------------
+// C38: MergeMutable looks at every field of the repository description that
+// is not computed by the indexer - a field it never reads can change without
+// the change being noticed (IndexState "equal") or applied.
+// Exempt: TenantID, Source (where the repository lives, not what it contains),
+// SubRepoMap / IndexOptions / HasSymbols (computed while indexing, documented),
+// priority and Rank (derived from RawConfig / ranking input), Tombstone,
+// LatestCommitDate and FileTombstones (maintained by the index itself).
+// ---------------------------------------------------------------------------
+//@ func zoekt.(*Repository).MergeMutable
+//@   reads_fields Repository except TenantID, Source, SubRepoMap, priority, Rank, IndexOptions, HasSymbols, Tombstone, LatestCommitDate, FileTombstones
